@@ -17,6 +17,8 @@ pub struct World<K: SimK, V: SimV, const N: usize, const M: usize> {
     pub sa: Slot<Set<K, N>>,
     pub sb: Slot<Set<K, M>>,
     pub cx: Cx<K, V>,
+    /// observing a container panicked: the run stops here
+    pub broken: bool,
 }
 
 /// Identity snapshots of the four containers.
@@ -98,6 +100,7 @@ impl<K: SimK, V: SimV, const N: usize, const M: usize> World<K, V, N, M> {
             sa: Slot::new(Set::new()),
             sb: Slot::new(Set::new()),
             cx: Cx::new(plan.cfg.clone()),
+            broken: false,
         }
     }
 
@@ -127,7 +130,7 @@ impl<K: SimK, V: SimV, const N: usize, const M: usize> World<K, V, N, M> {
                 for (fi, k) in newly {
                     out.fired.push((fi, k, op_name(op), lenb));
                 }
-                if ended == Ended::Watchdog {
+                if ended == Ended::Watchdog || w.broken {
                     break;
                 }
             }
@@ -136,7 +139,7 @@ impl<K: SimK, V: SimV, const N: usize, const M: usize> World<K, V, N, M> {
                 e.cur_op = plan.ops.len() as i32;
                 e.mode = Mode::Observe;
             });
-            let World { ma, mb, sa, sb, mut cx } = w;
+            let World { ma, mb, sa, sb, mut cx, broken } = w;
             let r = catch_unwind(AssertUnwindSafe(|| {
                 drop(ma);
                 drop(mb);
@@ -147,7 +150,9 @@ impl<K: SimK, V: SimV, const N: usize, const M: usize> World<K, V, N, M> {
                 violate("panic-in-final-drop", "dropping the containers at the end of the run panicked".into());
             }
             cx.empty_pockets();
-            final_ledger(&cx);
+            if !broken {
+                final_ledger(&cx);
+            }
             out.probes = std::mem::take(&mut cx.probes);
             out.states = std::mem::take(&mut cx.states);
         }
@@ -202,7 +207,14 @@ impl<K: SimK, V: SimV, const N: usize, const M: usize> World<K, V, N, M> {
     }
 
     fn step(&mut self, i: usize, op: &Op) -> (Ended, usize) {
-        let pre = self.observe();
+        let pre = match catch_unwind(AssertUnwindSafe(|| self.observe())) {
+            Ok(p) => p,
+            Err(_) => {
+                violate("unusable-after", "iterating a container panicked".into());
+                self.broken = true;
+                return (Ended::Returned, 0);
+            }
+        };
         let touched = Self::operands(op);
         let lenb = if touched.0 {
             pre.ma.len()
@@ -250,28 +262,41 @@ impl<K: SimK, V: SimV, const N: usize, const M: usize> World<K, V, N, M> {
         if self.cx.cfg.alloc_window && ended == Ended::Returned && hits + frees > 0 {
             violate("allocated", format!("{}: {hits} allocating and {frees} freeing allocator calls inside the operation (last request {last} bytes)", op_name(op)));
         }
-        // ---- standing checks
+        // ---- standing checks (observation runs the container's own code: if that panics, the
+        // container is unusable, which is a verdict, not a harness failure)
         if !(self.ma.canaries_ok() && self.mb.canaries_ok() && self.sa.canaries_ok() && self.sb.canaries_ok()) {
             violate("canary", format!("{}: a guard word next to a container changed", op_name(op)));
         }
-        let post = self.observe();
         let lying = self.cx.lying;
-        if touched.0 {
-            wf_map("map A", &self.ma.g.val, lying);
-            self.cx.note_state(1, &post.ma);
-        }
-        if touched.1 {
-            wf_map("map B", &self.mb.g.val, lying);
-            self.cx.note_state(2, &post.mb);
-        }
-        if touched.2 {
-            wf_set("set A", &self.sa.g.val, lying);
-            self.cx.note_state(3, &post.sa);
-        }
-        if touched.3 {
-            wf_set("set B", &self.sb.g.val, lying);
-            self.cx.note_state(4, &post.sb);
-        }
+        let observed = catch_unwind(AssertUnwindSafe(|| {
+            let post = self.observe();
+            if touched.0 {
+                wf_map("map A", &self.ma.g.val, lying);
+                self.cx.note_state(1, &post.ma);
+            }
+            if touched.1 {
+                wf_map("map B", &self.mb.g.val, lying);
+                self.cx.note_state(2, &post.mb);
+            }
+            if touched.2 {
+                wf_set("set A", &self.sa.g.val, lying);
+                self.cx.note_state(3, &post.sa);
+            }
+            if touched.3 {
+                wf_set("set B", &self.sb.g.val, lying);
+                self.cx.note_state(4, &post.sb);
+            }
+            post
+        }));
+        let post = match observed {
+            Ok(p) => p,
+            Err(p) => {
+                let msg = p.downcast_ref::<&str>().map(|s| s.to_string()).or_else(|| p.downcast_ref::<String>().cloned()).unwrap_or_default();
+                violate("unusable-after", format!("{}: iterating / looking up in a container after the operation panicked: {msg}", op_name(op)));
+                self.broken = true;
+                return (ended, lenb);
+            }
+        };
         self.places(&post, ended == Ended::Injected || ended == Ended::Watchdog);
         self.op_rules(op, &pre, &post, &ended, &out);
         self.cx.empty_pockets();
